@@ -271,9 +271,10 @@ def c04_actor_leg(res):
     run_family(res, "C04", systems, STATE_FIELDS["C04"], SYS_FIELDS["C04"], real_counts=True)
 
 
-def orl_system(sid, scripts, net_len=4, lossy=True):
+def orl_system(sid, scripts, net_len=4, lossy=True, ignore_even=None):
     s = ga.system(sid, [ga.actor(0) for _ in scripts], network="dup", lossy=lossy, net_len=net_len, max_states=40000)
     s["wrap"] = "orl"
+    s["ignore_even"] = list(ignore_even) if ignore_even else [False] * len(scripts)
     s["scripts"] = [[dict(dst=d, msg=m) for (d, m) in sc] for sc in scripts]
     return s
 
@@ -290,7 +291,10 @@ def c16(res):
                orl_system("two_dst", [[(1, 11), (2, 12), (1, 13)], [], []]),
                orl_system("bidir", [[(1, 11)], [(0, 21)]]),
                orl_system("two_senders", [[(2, 11), (2, 12)], [(2, 21)], []], net_len=4),
-               orl_system("lossless", [[(1, 11), (1, 12), (1, 13)], []], net_len=5, lossy=False)]
+               orl_system("lossless", [[(1, 11), (1, 12), (1, 13)], []], net_len=5, lossy=False),
+               # a receiver that ignores some messages (handler leaves its state untouched and sends nothing)
+               orl_system("ignoring", [[(1, 10), (1, 11)], []], ignore_even=[False, True]),
+               orl_system("ignoring3", [[(1, 11), (1, 12), (1, 13)], []], net_len=4, ignore_even=[False, True])]
     if not q:
         systems += [orl_system("three_msgs", [[(1, 11), (1, 12), (1, 13)], []], net_len=5),
                     orl_system("cross", [[(1, 11), (1, 12)], [(0, 21), (0, 22)]], net_len=5),
@@ -359,6 +363,20 @@ def c04(res):
     wd = workdir("C04v-%s" % res.tier)
     rp, op = os.path.join(wd, "identity.ndjson"), os.path.join(wd, "identity.json")
     run_vh(["algebra", "--out", rp, "--what", "identity"], timeout=600)
+    r = run_tlc("Identity.tla", "cfg/empty.cfg", env=dict(RECS=rp, OUT=op), timeout=1200, name="identity", heap="6g")
+    if not r["ok"]:
+        raise ToolError("Identity judge failed: " + r["out"][-2000:])
+    # the consistency testers as values: replay TLC-generated histories, take the stream and the canonical rendering
+    import fam_consistency
+    hs = fam_consistency.gen_histories(res, wd, "reg", 2, 2, 4, 0, "c04id")
+    hp, hr = os.path.join(wd, "hist.ndjson"), os.path.join(wd, "hist-out.ndjson")
+    write_ndjson(hp, hs)
+    run_vh(["testers", "--in", hp, "--out", hr], timeout=1200)
+    with open(rp, "a") as f:
+        for t in read_ndjson(hr):
+            if "lin_key" in t:
+                f.write(json.dumps(dict(rec="identity", cat="linearizability_tester", key=t["lin_key"], variant=0, stream=t["lin_stream"])) + "\n")
+                f.write(json.dumps(dict(rec="identity", cat="sequential_consistency_tester", key=t["sc_key"], variant=0, stream=t["sc_stream"])) + "\n")
     r = run_tlc("Identity.tla", "cfg/empty.cfg", env=dict(RECS=rp, OUT=op), timeout=1200, name="identity", heap="6g")
     if not r["ok"]:
         raise ToolError("Identity judge failed: " + r["out"][-2000:])
